@@ -29,6 +29,7 @@ func c02(c *core.Check) {
 	c02RetryReset(c)
 	c02CancelledPublishesNothing(c)
 	c02SpanningResume(c)
+	c02FirstLetter(c)
 }
 
 func isResumeStack(t types.Type) bool {
